@@ -16,7 +16,7 @@ PROPERTY = 'C19'
 LEVEL = 'exploration'
 RULE = ('durations: every microsecond fraction 0..999999 (all 10^6 when the budget allows - counter dur.fractions_swept - otherwise an evenly scattered subset) x whole-second '
         'parts (quick: 6, thorough: 14) x input kind {float,str,timedelta}, plus random magnitudes up '
-        'to 50 years; date-times: UTC offsets -14:00..+14:00 in 15 min steps x microsecond grid + random; '
+        'to 50 years; date-times: years 2..9998, UTC offsets -14:00..+14:00 in 15 min steps x microsecond grid + random; '
         'tick conversions: (timecode, timescale) with timescale 1..10^7. distinct_nontrivial counts '
         'distinct (function, input-kind, whole-part / carry-class / offset / timescale-bucket) classes '
         'in which the oracle compared a value that exercises rounding (non-zero fraction).')
@@ -180,6 +180,10 @@ def run_datetimes(ctx: ShardCtx, res: ShardResult, dt_mod, tz_mod, tags) -> None
             y, mo, d, h, mi, s = boundaries[i % len(boundaries)]
         else:
             y, mo, d = rng.randrange(1971, 2100), rng.randrange(1, 13), rng.randrange(1, 29)
+            if rng.random() < 0.2:
+                # any year a datetime can hold (the text has a four digit, zero padded year)
+                y = rng.choice([rng.randrange(2, 100), rng.randrange(100, 1000), rng.randrange(1000, 1971),
+                                rng.randrange(2100, 9999), 2, 99, 100, 9998])
             h, mi, s = rng.randrange(24), rng.randrange(60), rng.randrange(60)
         if off == 0 and i % 3 == 0:
             tz = tz_mod.UTC()
